@@ -165,7 +165,8 @@ def gen_reset(rng: random.Random, tier: str) -> dict:
     n_events, _ = _baseline_shape(prog)
     return {
         "program": prog,
-        "reset_after": rng.choice(["complete", "complete", "paused"]),
+        "reset_after": rng.choice(["complete", "complete", "paused", "stepped-to-the-end"]),
+        "step_n": rng.choice([1, 1, 3, n_events + 7]),
         "more_resets": rng.choice([0, 0, 1, 2]),
         "pause_at": rng.randrange(0, max(1, n_events)),
         "second_run_control": rng.random() < 0.5,
@@ -546,6 +547,15 @@ def run_reset(case: dict) -> Result:
                 sim.run()
                 if case["pause_at"] > 0 and ctl.is_paused:
                     ctl.step(case["pause_at"])
+            elif case["reset_after"] == "stepped-to-the-end":
+                # single steps / one over-long step: the run ends while a step budget is still outstanding
+                ctl = sim.control
+                ctl.pause()
+                sim.run()
+                guard = 0
+                while ctl.is_paused and guard < 5000:
+                    ctl.step(case.get("step_n") or 1)
+                    guard += 1
             else:
                 sim.run()
             n1 = len(rr.log)
@@ -554,6 +564,7 @@ def run_reset(case: dict) -> Result:
                     rr.events[i].cancel()
             sim.control.reset()
             sim.run()
+            box["replay_paused"] = bool(sim.control.is_paused)
             while sim.control.is_paused:
                 sim.control.resume()
             # further reset + run rounds: each must again equal the fresh run
@@ -575,6 +586,9 @@ def run_reset(case: dict) -> Result:
     res.count("resets_compared")
     a, b = box["second"], box["first"]
     pre = prog["pre"]
+    if box.get("replay_paused"):
+        # nothing asks the replayed run to pause: no breakpoint is registered and every pause request was consumed
+        res.add("reset-replay-pauses", "SimulationControl", "after-" + case["reset_after"], "run() after reset() returned paused although no pause was requested and no breakpoint is registered")
     if a != b:
         i = 0
         while i < len(a) and i < len(b) and a[i] == b[i]:
